@@ -26,13 +26,15 @@ let name_obs (s : n list) : string =
   String.concat ","
     (List.filter_map (fun (p, f) -> let o = f s in if o = "err" then None else Some (p ^ "=" ^ o)) parsers)
 
-(* pure functions of the dispatch result; memoised because a table costs ~0.5 s with unary-free binary N *)
+(* The map observations are the ones the property REQUIRES (Ident/Maps.v: *_req; proved equal to the plain model by
+   C08_required_is_actual), so a table/arm that breaks a theorem shows up as a concrete differing run number.
+   Pure functions of the dispatch result, memoised because a table costs ~0.5 s with binary N. *)
 let memo f =
   let h = Hashtbl.create 16 in
   fun k -> match Hashtbl.find_opt h k with Some v -> v | None -> let v = f k in Hashtbl.add h k v; v
 let tbl_str ((nok, h), bij) = Printf.sprintf "%s/%s/%s" (n_str nok) (n_str h) (bit bij)
-let wire_obs = memo (fun d -> tbl_str (wire_table_obs d))
-let pad_obs = memo (fun d -> tbl_str (pad_table_obs d))
+let wire_obs = memo (fun d -> tbl_str (wire_table_obs_req d))
+let pad_obs = memo (fun d -> tbl_str (pad_table_obs_req d))
 
 let contains (s : string) (sub : string) =
   let n = String.length s and m = String.length sub in
@@ -57,15 +59,15 @@ let handle (line : string) : string =
       match from_str_radix_u8 (n_of_string r) (unhex h) with Some v -> "ok " ^ n_str v | None -> "err")
   | [ "run"; r ] ->
       let run = n_of_string r in
-      let w = wire_obs (wire_dispatch run) and p = pad_obs (pwb_dispatch run) in
+      let w = wire_obs (wire_dispatch_req run) and p = pad_obs (pwb_dispatch_req run) in
       let zero x = String.length x >= 2 && String.sub x 0 2 = "0/" in
       Printf.sprintf "%s w=%s p=%s" (if zero w && zero p then "err" else "ok") w p
   | [ "wpos"; r; b; ch ] -> (
-      match wpos_obs (n_of_string r) (unhex b) (n_of_string ch) with
+      match wpos_obs_req (n_of_string r) (unhex b) (n_of_string ch) with
       | None -> "noboard"
       | Some x -> out (fun w -> "ok " ^ n_str w) x)
   | [ "ppos"; r; b; a; ch ] -> (
-      match ppos_obs (n_of_string r) (unhex b) (n_of_string a) (n_of_string ch) with
+      match ppos_obs_req (n_of_string r) (unhex b) (n_of_string a) (n_of_string ch) with
       | None -> "noboard"
       | Some x -> out (fun (c, w) -> Printf.sprintf "ok %s %s" (n_str c) (n_str w)) x)
   | [ "wcol"; w ] -> (
